@@ -26,6 +26,10 @@ ASSUMPTIONS = [
 UNIT_TIMEOUT = {"quick": 300, "thorough": 2400}
 
 OPS = ["value", "error", "call", "is_computed", "set_value", "set_error", "reset", "sub_ok", "sub_raise"]
+# the subscriber-centred alphabet adds a callback that unsubscribes itself while being notified (and one that does so
+# and raises): everybody else subscribed at that moment must still be notified exactly once
+OPS_SUB = ["value", "error", "set_value", "set_error", "reset", "sub_ok", "sub_raise", "sub_once", "sub_once_raise"]
+OPS_ALL = OPS + ["sub_once", "sub_once_raise"]
 KINDS = [
     "future_ok",
     "future_raise",
@@ -50,6 +54,8 @@ def plan(tier, seed, build, scale):
     for k in KINDS:
         deep = tier == "thorough" and k in ("future_ok", "future_raise", "task_item", "item_ok")
         units.append({"mode": "exhaustive", "kind": k, "maxlen": n + (1 if deep else 0), "cases": [0, 1], "timeout": 2400, "case_timeout": 150})
+        if k not in ("const", "errfut"):
+            units.append({"mode": "exhaustive", "alphabet": "sub", "kind": k, "maxlen": n + (1 if deep else 0), "cases": [0, 1], "timeout": 2400, "case_timeout": 150})
     units.append({"mode": "scheduler", "cases": [0, 1]})
     nr = int((3000 if tier == "quick" else 60000) * scale)
     per = max(1, nr // 8)
@@ -112,8 +118,10 @@ class Model(object):
     def complete(self, out):
         self.computed = True
         self.out = out
-        for sid, _kind in self.subs:
+        for sid, _kind in list(self.subs):
             self.expected_notes.append((sid, out))
+            if _kind.startswith("sub_once"):
+                self.subs.remove((sid, _kind))
 
     def can_compute(self):
         if self.kind.startswith("future"):
@@ -285,8 +293,10 @@ def run_sequence(kind, seq):
     completions = 0
     observed_after = False
 
-    def mk_sub(sid, raising):
+    def mk_sub(sid, raising, once=False):
         def cb(f):
+            if once:
+                f.on_computed.unsubscribe(cb)
             try:
                 comp = f.is_computed()
                 e = f.error() if comp else None
@@ -368,7 +378,7 @@ def run_sequence(kind, seq):
             del faic_seen[:]
             err_instances.clear()
             exp = ("ret", None)
-        elif op in ("sub_ok", "sub_raise"):
+        elif op in ("sub_ok", "sub_raise", "sub_once", "sub_once_raise"):
             sid = next(sub_ids)
             if not m.sinking:
                 m.subs.append((sid, op))
@@ -393,7 +403,7 @@ def run_sequence(kind, seq):
             elif op == "reset":
                 got = ("ret", obj.reset_unsafe())
             else:
-                obj.on_computed.subscribe(mk_sub(sid, op == "sub_raise"))
+                obj.on_computed.subscribe(mk_sub(sid, op.endswith("_raise"), op.startswith("sub_once")))
                 got = ("ret", None)
         except FutureIsAlreadyComputed as e:
             if op in ("value", "call"):
@@ -563,10 +573,12 @@ def run_unit(unit, progress):
         kind = unit["kind"]
         n = 0
         for L in range(1, unit["maxlen"] + 1):
-            for seq in itertools.product(OPS, repeat=L):
+            for seq in itertools.product(OPS_SUB if unit.get("alphabet") == "sub" else OPS, repeat=L):
                 one(kind, seq)
                 n += 1
         c["exhaustive_sequences"] = n
+        if unit.get("alphabet") == "sub":
+            c["exhaustive_sequences_with_self_unsubscribing_callbacks"] = n
         if not res["samples"]:
             res["samples"].append({"kind": kind, "sequence": ["sub_raise", "sub_ok", "value", "set_value"], "note": "every sequence up to length %d was run" % unit["maxlen"]})
     else:
@@ -575,7 +587,7 @@ def run_unit(unit, progress):
             progress(i)
             rnd = random.Random(tl.case_seed(unit["seed"], ID, i))
             kind = rnd.choice(KINDS)
-            seq = [rnd.choice(OPS) for _ in range(rnd.randint(5, 15))]
+            seq = [rnd.choice(OPS_ALL) for _ in range(rnd.randint(5, 15))]
             one(kind, seq)
             c["random_sequences"] = c.get("random_sequences", 0) + 1
     return res
@@ -583,7 +595,7 @@ def run_unit(unit, progress):
 
 def reach(c, tier):
     out = []
-    for k in ["ops_" + k for k in KINDS] + ["notifications_observed", "sequences_with_reset", "exhaustive_sequences", "random_sequences", "scheduler_scenarios"]:
+    for k in ["ops_" + k for k in KINDS] + ["notifications_observed", "sequences_with_reset", "exhaustive_sequences", "exhaustive_sequences_with_self_unsubscribing_callbacks", "random_sequences", "scheduler_scenarios"]:
         if not c.get(k):
             out.append("%s is zero" % k)
     return out
